@@ -177,6 +177,8 @@ def run(ctx):
                 one_call(cats, dic, False, note='same dictionary object, ' + kind)
     ctx.sample({'dictionary_entry': ['attended', cat_dict['attended'][:4]]})
     ctx.sample({'generated': ctx.extra['generated']})
+    import cli_common
+    cases += cli_common.read_params_model_cases(ctx, ctx.budget(18, 180))      # read_params next to its Lean model (Config.lean)
     ctx.extra['skipped_unsupported'] = common.compare_with_model(ctx, cases)
 
     def enlarged():
